@@ -284,8 +284,19 @@ func (tr *FnTrans) loopHeader(h *ssa.BasicBlock, ord int, st *BState, phiVal fun
 			ks = append(ks, k)
 		}
 		sort.Strings(ks)
+		pureFn := tr.c != nil && tr.c.LoopFrames && tr.fnIsPure()
 		for _, k := range ks {
-			st.heap.set(k, tr.freshHeap("Hloop_"+heapKey(k), st.heap.arraySort(k)))
+			oldT := preLoopHeap.lookup(k)
+			nw := tr.freshHeap("Hloop_"+heapKey(k), st.heap.arraySort(k))
+			st.heap.set(k, nw)
+			if pureFn {
+				// the function writes only memory it allocated itself: objects that existed on entry
+				// keep their contents through the loop (instantiated at the addresses read later)
+				ff := &frameFact{guard: st.reach, old: oldT, nw: nw, changedOf: func(r string) string {
+					return fmt.Sprintf("(>= (rootloc %s) ac0)", r)
+				}}
+				tr.heapAnc[nw] = append([]*frameFact{ff}, tr.heapAnc[oldT]...)
+			}
 		}
 		// local variables declared before the loop and assigned inside it: only their own cells change
 		tr.curState = st
@@ -387,6 +398,22 @@ func (tr *FnTrans) loopHeader(h *ssa.BasicBlock, ord int, st *BState, phiVal fun
 	}
 	tr.reinstantiate()
 	tr.loopInfo[ord] = kind
+}
+
+// fnIsPure: the function (syntactically) writes only memory it allocated itself and calls only pure callees.
+func (tr *FnTrans) fnIsPure() bool {
+	if tr.pureKnown {
+		return tr.pureVal
+	}
+	tr.pureKnown = true
+	frameEng = tr.eng
+	if tr.c != nil && (tr.c.Pure || (tr.c.ModSet && len(tr.c.Modifies) == 0)) {
+		// declared by the contract (checked syntactically as frame:pure, or explicitly trusted)
+		tr.pureVal = true
+		return true
+	}
+	tr.pureVal = len(tr.purityOf(tr.fn, 0)) == 0
+	return tr.pureVal
 }
 
 // rootAlloc returns the local variable an address lies in (through field and constant-index selection).
@@ -957,6 +984,16 @@ func (tr *FnTrans) backEdges(st *BState, in ssa.Instruction) {
 		for k, phi := range tr.autoPhis[h] {
 			tr.oblige("inv-step", fmt.Sprintf("loop %d: range index stays within bounds", ord), cond, tr.autoInvs[h](tr.val(phi.Edges[predIdx]).T, k), in.Pos())
 		}
+		if spec != nil {
+			for _, sa := range spec.StepAsserts {
+				env := tr.envAt(b, len(b.Instrs), st.heap, tr.entryHeap)
+				lbl := sa.Name
+				if lbl == "" {
+					lbl = fmt.Sprint(ord)
+				}
+				tr.oblige("step-assert["+lbl+"]", fmt.Sprintf("loop %d, end of iteration: %s", ord, sa.Src), cond, env.evalGoal(sa.E), in.Pos())
+			}
+		}
 		if spec == nil || len(spec.Invariants) == 0 {
 			continue
 		}
@@ -1212,6 +1249,19 @@ func (tr *FnTrans) siteFor(alias string) *Site {
 	}
 	ci, ok := tr.siteInstr[alias]
 	if !ok {
+		for _, aliases := range tr.storeSites {
+			for _, a := range aliases {
+				if a == alias {
+					// an assignment site that has not been translated yet: not on any path to here
+					if g, ok := tr.ghostSites[alias]; ok {
+						return g
+					}
+					g := &Site{Callee: "store", Reach: "false", Before: tr.entryHeap, After: tr.entryHeap}
+					tr.ghostSites[alias] = g
+					return g
+				}
+			}
+		}
 		for _, sd := range tr.missingSites {
 			if sd.Alias == alias {
 				if g, ok := tr.ghostSites[alias]; ok {
